@@ -630,3 +630,7 @@ _add(
     m("batch-monitor-stops-whole-executor", "redun/executors/aws_batch.py", "        self.arrayer.stop()\n        self.is_running = False\n\n    def _can_override_failed", "        self.stop()\n\n    def _can_override_failed", "C10.8"),
     m("arrayer-start-ignores-exit-flag", "redun/job_array.py", "            if not self._exit_flag.is_set():\n                return\n", "            return\n", "C10.9"),
 )
+_add(
+    "C03",
+    m("existing-node-without-rows-not-completed", D, "            elif not session.query(CallSubtreeTask).filter_by(call_hash=call_hash).first():", "            elif False:", "C03.5"),
+)
